@@ -14,17 +14,21 @@ def main(tier, seed, replay):
     if tier == "quick":
         k.model_check("MC_Event", ev_consts(stypes=("SOrd",), ctypes=("COrd",), emits=2), inv, module=M)
         k.must_find("MC_Event_NoExclude", ev_consts(impl="ImplNoExclude", idle=1), inv, module=M)
+        k.model_check("MC_Event_unreliable_c", ev_consts(stypes=(), ctypes=("CUnr",), emits=2), inv, module=M)
         tr = k.validate_profile("events", 120)
         k.validate_profile("events_custom", 60)
     else:
         k.model_check("MC_Event", ev_consts(stypes=("SOrd", "SInd"), ctypes=("COrd", "CMap"), emits=3, ticks=2, idle=1, cframes=3), inv, module=M, timeout=3000)
         k.model_check("MC_Event_modes", ev_consts(stypes=("SOrd", "SInd"), modes=("all", "direct", "except"), emits=2, ticks=2, init=()), inv, module=M, timeout=3000)
         k.model_check("MC_Event_recon", ev_consts(stypes=("SOrd",), ctypes=("COrd",), emits=2, ticks=2, reconnects=1, cframes=3), inv, module=M, timeout=3000)
+        k.model_check("MC_Event_unreliable", ev_consts(stypes=("SUnr",), ctypes=("CUnr",), emits=2), inv, module=M, timeout=3000)
+        k.model_check("MC_Event_unreliable3", ev_consts(stypes=("SUnr",), ctypes=(), emits=3, ticks=2, cframes=3), inv, module=M, timeout=3000)
         k.must_find("MC_Event_NoExclude", ev_consts(impl="ImplNoExclude", idle=1), inv, module=M)
+        k.must_find("MC_Event_unreliable_NoExclude", ev_consts(impl="ImplNoExclude", stypes=("SUnr",), idle=1), inv, module=M)
         tr = k.validate_profile("events", 2500)
         k.validate_profile("events_custom", 1500)
     k.selftest(tr)
     return k.finish(assumptions=[
         "sequence numbers are assigned by the harness; deliveries are observed by readers/observers inside the apps",
-        "all test events use ordered reliable channels; unreliable/unordered channel kinds are not exercised (at-most-once is implied by exactly-once here)",
+        "ordered reliable channels for SOrd/SInd/SMap/STrig/COrd/CMap/CTrig (exactly once, in order, complete at quiescence); an unreliable channel for SUnr/CUnr (loss and reordering chosen by TLC / the driver: at most once, only to allowed recipients, never from an earlier session)",
         "an independent Direct event addressed to a client entity that disconnected in the same frame is handed to the transport for a dead id (observed; not counted as a delivery)"])
